@@ -332,6 +332,10 @@ func (s *Swarm) genPlain(rng *vrt.Rand, restartCfg func() *Config) func(r *Runne
 			}
 		case "restart", "kill":
 			op.Cfg = restartCfg()
+			if k == "kill" && rng.Chance(0.5) {
+				b := s.genBatch(rng, r, 8, false) // the process dies inside this batch, before Commit
+				op.Sub = b.Sub[:len(b.Sub)-1]
+			}
 		case "batch":
 			op = s.genBatch(rng, r, 6, true)
 			op.Dt = s.dt(rng)
